@@ -9,6 +9,7 @@ import numpy as np
 from sdpcap.affine import snap
 from sdpcap.capture import Captured, SymProgram, capture
 from sdpcap.task import SdpTask
+from sdpcap.order import FamilyTask, OrderTask, cmat, fact_combination, lemma_map
 from symnp.core import And, lift
 from symnp.harness import Obligation, eq
 from props.c01 import perm_index
@@ -17,7 +18,7 @@ from props.c02 import oracle_ptrace
 from props.c03 import oracle_pt
 from props.c10 import tr
 from props.c11 import pfrac, rho_exact
-from toqito.state_opt import ppt_distinguishability, symmetric_extension_hierarchy
+from toqito.state_opt import ppt_distinguishability, state_distinguishability, symmetric_extension_hierarchy
 
 META = {
     "id": "C12",
@@ -31,13 +32,21 @@ META = {
                    "Y - p_i rho_i - PT_S(Q_i) >= 0, Q_i >= 0, min Tr Y; hierarchy level L: marginal constraint Tr_{copies}(X_k) = M_k, symmetric-subspace "
                    "constraint with the oracle's own projector, PT constraints on the listed cuts, sum M_k = I, objective. Level 1 is compared against the "
                    "PPT program through the same reference builder. The caller's list of states must hold the same objects after the call (checked with "
-                   "symbolic kets; E1).",
+                   "symbolic kets; E1). Ordering clauses are decided on the captured programs themselves (sdpcap/order.py): T4 program inclusion - every "
+                   "feasible point of the captured PPT program is feasible for the captured min-error program of state_distinguishability with the same "
+                   "objective (PPT value <= global optimum); every feasible point of the captured level-2 hierarchy program maps to a feasible point of the "
+                   "captured level-1 program (non-increasing in the level; lemma: the partial trace of a PSD operator is PSD); T5 feasible families - every "
+                   "classical post-processing (symbolic column-stochastic weights) of explicit one-way LOCC product measurements is feasible for the captured "
+                   "PPT / hierarchy program (levels 1, 2; with the product extension a (x) b (x) b) and the captured objective equals its success probability "
+                   "(value >= every such LOCC / separable measurement).",
     "bounds": {"quick": "2..3 states on 2x2 and 2x3, dyadic real and complex, kets and density matrices, either party transposed, primal and dual; hierarchy levels 1 (2x2, 2x3) and 2 (2x2, 2 states)",
                "thorough": "adds 4 states, hierarchy level 2 on 2x3 (2 states)"},
     "trusted_base": ["picos / cvxpy evaluate their own affine expressions correctly (extraction)", "textbook duality of the PPT-distinguishability SDP",
+                     "PSD cone facts used by T4 / T5: closure under non-negative combinations and under the partial trace; exact rational elimination decides PSD-ness of the concrete generators",
                      "conic solvers (replay only)", "z3 5.1.0"],
-    "outside_claim": ["value 1/2 for the Bell states, LOCC / separable lower bounds, local-unitary invariance of the value (numerical optimum)",
-                      "monotonicity in the level as a statement about optima (the level-k program's structure is checked, the inclusion theorem is not re-proved)",
+    "outside_claim": ["value 1/2 for the Bell states, local-unitary invariance of the value (numerical optimum); LOCC / separable lower bounds beyond the explicit "
+                      "product-basis families (adaptive multi-round protocols, non-projective local measurements)",
+                      "monotonicity in the level beyond the instances on which the inclusion level 2 -> level 1 is decided",
                       "instance data is concrete: the claim is per instance, for all decision-variable values"],
     "assumptions": ["instance amplitudes are dyadic so that extraction is exact"],
 }
@@ -285,6 +294,161 @@ class PptDualityTask(Task):
         print({"primal": a, "dual": d})
         return abs(a - d) <= 2e-4
 
+# ---- ordering clauses decided on the captured programs themselves (T4 / T5) -------------------------------------------------
+LOCAL_BASES = {
+    2: [[np.diag([1.0, 0]), np.diag([0, 1.0])],
+        [np.array([[.5, .5], [.5, .5]]), np.array([[.5, -.5], [-.5, .5]])],
+        [np.array([[.5, -.5j], [.5j, .5]]), np.array([[.5, .5j], [-.5j, .5]])]],
+    3: [[np.diag([1.0, 0, 0]), np.diag([0, 1.0, 0]), np.diag([0, 0, 1.0])],
+        [np.diag([1.0, 0, 0]), np.array([[0, 0, 0], [0, .5, .5], [0, .5, .5]]), np.array([[0, 0, 0], [0, .5, -.5], [0, -.5, .5]])],
+        [np.array([[.5, 0, -.5j], [0, 0, 0], [.5j, 0, .5]]), np.diag([0, 1.0, 0]), np.array([[.5, 0, .5j], [0, 0, 0], [-.5j, 0, .5]])]],
+}
+
+
+def product_measurements(dims):
+    """explicit one-way LOCC measurements: Alice measures a rank-one projective basis, Bob's basis depends on her outcome.
+    Every element is a product projector with rational entries; the elements sum to the identity."""
+    dx, dy = dims
+    out = []
+    for ia, A in enumerate(LOCAL_BASES[dx]):
+        for shift in range(2):
+            els = []
+            for a, Pa in enumerate(A):
+                B = LOCAL_BASES[dy][(ia + a * shift + shift) % len(LOCAL_BASES[dy])]
+                els += [(Pa, Pb) for Pb in B]
+            out.append((f"Alice basis #{ia}, Bob basis {'depends on her outcome' if shift else 'fixed'}", els))
+    return out
+
+
+def locc_family(inst, els, level=None):
+    """T5 family: every classical post-processing (column-stochastic weights c[i][k]) of the product measurement `els`."""
+    vs, ps, dims = inst[0], inst[1], inst[2]
+    n = len(vs)
+    dx, dy = dims
+    rhos = [rho_exact(v) for v in vs]
+    prods = [np.kron(cmat(Pa), cmat(Pb)) for Pa, Pb in els]
+    L = level or 1
+    dl = [dx] + [dy] * L
+    exts = []
+    for Pa, Pb in els:
+        e = np.kron(cmat(Pa), cmat(Pb))
+        for _ in range(L - 1):
+            e = np.kron(e, cmat(Pb))
+        exts.append(e)
+
+    def family(b, variables):
+        import z3
+        c = [[b.real(f"c_{i}_{k}") for k in range(len(els))] for i in range(n)]
+        assume = [lift(c[i][k]).re.to_z3() >= 0 for i in range(n) for k in range(len(els))]
+        for k in range(len(els)):
+            assume.append(z3.Sum([lift(c[i][k]).re.to_z3() for i in range(n)]) == 1)
+
+        def comb(i, mats):
+            tot = None
+            for k, P in enumerate(mats):
+                t = np.asarray(P, dtype=object) * c[i][k]
+                tot = t if tot is None else tot + t
+            return tot
+        Ms = [comb(i, prods) for i in range(n)]
+        facts = []
+        if level is None:                                  # picos PPT program: variables M[i]
+            S = inst[3]
+            pts = []
+            for v in variables:
+                i = int(v.name[v.name.index("[") + 1:v.name.index("]")])
+                pts.append(Ms[i])
+            for i in range(n):
+                facts.append(fact_combination(c[i], prods))
+                facts.append(fact_combination(c[i], [oracle_pt(P, dims, dims, S) for P in prods]))
+        else:                                              # cvxpy hierarchy program: variables (M_0, X_0, M_1, X_1, ...)
+            Xs = [comb(i, exts) for i in range(n)]
+            pts = []
+            for k in range(n):
+                pts += [Ms[k], Xs[k]]
+            for i in range(n):
+                facts.append(fact_combination(c[i], prods))
+                facts.append(fact_combination(c[i], exts))
+                facts.append(fact_combination(c[i], [oracle_pt(E, dl, dl, [0]) for E in exts]))
+                for s in range(L - 1):
+                    facts.append(fact_combination(c[i], [oracle_pt(E, dl, dl, [s + 2]) for E in exts]))
+        val = 0
+        for i in range(n):
+            for k, P in enumerate(prods):
+                val = val + pfrac(ps[i]) * tr(rhos[i] @ P) * c[i][k]
+        return {"points": pts, "assume": assume, "facts": facts, "value": lift(val).real}
+
+    def best():
+        tot = 0.0
+        for P in prods:
+            Pn = np.array([[complex(float(lift(x).re.t.get((), 0)), float(lift(x).im.t.get((), 0))) for x in row] for row in P])
+            tot += max(float(p) * float(np.real(np.trace(np.array([[complex(float(lift(x).re.t.get((), 0)), float(lift(x).im.t.get((), 0))) for x in row] for row in r]) @ Pn)))
+                       for p, r in zip(ps, rhos))
+        return tot
+    return family, best
+
+
+def embed_same_names(VA, vars_b):
+    return [VA[v.name] for v in vars_b]
+
+
+def embed_level_down(VA, vars_b):
+    """level-L point (M_k, X_k) -> level-1 point (M_k, X_k := M_k)"""
+    out = []
+    for j, v in enumerate(vars_b):
+        out.append(VA[2 * (j // 2)])
+    return out
+
+
+def lemmas_level_down(dims, level, n):
+    dl = [dims[0]] + [dims[1]] * level
+
+    def lem(VA, PA, emb):
+        out = []
+        for k in range(n):
+            src = oracle_pt(np.asarray(VA[2 * k + 1], dtype=object), dl, dl, [0])
+            out.append(lemma_map(src, oracle_ptrace(src, dl, list(range(2, level + 1)))))
+        return out
+    return lem
+
+
+def order_obligations(tier):
+    T = tier == "thorough"
+    obs = []
+    fams = instances("quick")
+    for name, vs, ps, dims in fams:
+        n = len(vs)
+        pp = ps if ps is not None else [1.0 / n] * n
+        kets = all(np.ndim(v) == 2 and np.shape(v)[1] == 1 for v in vs)
+        for S in ([0], [1]):
+            # PPT optimum <= global optimum: every PPT-feasible POVM is feasible for the min-error program with the same objective
+            obs.append(OrderTask("ppt_distinguishability.value_at_most_global_optimum_by_program_inclusion", {"instance": name, "subsystems": S, "dimensions": dims},
+                                 (lambda vs=vs, ps=ps, S=S, dims=dims: ppt_distinguishability(vs, S, dims, ps, primal_dual="primal")),
+                                 (lambda vs=vs, ps=ps: state_distinguishability(vs, ps, primal_dual="primal")), embed_same_names))
+            # PPT optimum >= every one-way LOCC measurement built from product bases (all classical post-processings)
+            for lab, els in product_measurements(dims)[:(6 if T else 3)]:
+                fam, best = locc_family((vs, pp, dims, S), els)
+                obs.append(FamilyTask("ppt_distinguishability.value_at_least_every_explicit_locc_measurement", {"instance": name, "subsystems": S, "dimensions": dims, "measurement": lab},
+                                      (lambda vs=vs, ps=ps, S=S, dims=dims: ppt_distinguishability(vs, S, dims, ps, primal_dual="primal")), fam, best=best,
+                                      trusted=["product projectors are PSD with PSD partial transpose (checked exactly)"]))
+        levels = [1] + ([2] if (dims == [2, 2] and n == 2) or (T and n == 2) else [])
+        for level in levels:
+            for lab, els in product_measurements(dims)[:(4 if T else 2)]:
+                fam, best = locc_family((vs, pp, dims), els, level=level)
+                t = FamilyTask("symmetric_extension_hierarchy.value_at_least_every_explicit_separable_measurement", {"instance": name, "level": level, "dim": dims, "measurement": lab},
+                               (lambda vs=vs, ps=ps, level=level, dims=dims: symmetric_extension_hierarchy([np.array(v) for v in vs], ps, level, list(dims))), fam, best=best,
+                               value_of=lambda r: float(r), trusted=["a (x) b (x) b for rank-one b is PSD, symmetric, PPT on every cut (checked exactly)"])
+                t.weight = 40 if level > 1 else 8
+                obs.append(t)
+            if level > 1:
+                t = OrderTask("symmetric_extension_hierarchy.non_increasing_in_the_level_by_program_inclusion", {"instance": name, "from_level": level, "to_level": 1, "dim": dims},
+                              (lambda vs=vs, ps=ps, level=level, dims=dims: symmetric_extension_hierarchy([np.array(v) for v in vs], ps, level, list(dims))),
+                              (lambda vs=vs, ps=ps, dims=dims: symmetric_extension_hierarchy([np.array(v) for v in vs], ps, 1, list(dims))),
+                              embed_level_down, lemmas=lemmas_level_down(dims, level, n), value_a=lambda r: float(r), value_b=lambda r: float(r),
+                              trusted=["the partial trace of a PSD operator is PSD"])
+                t.weight = 60
+                obs.append(t)
+    return obs
+
 
 def obligations(tier):
     T = tier == "thorough"
@@ -336,4 +500,5 @@ def obligations(tier):
     obs.append(ob_list_unchanged("column kets", 4))
     obs.append(ob_list_unchanged("density matrices", 4))
     obs.append(ob_list_unchanged("column kets", 6))
+    obs += order_obligations(tier)
     return obs
